@@ -44,20 +44,32 @@ pub struct RaptorDecoder {
     data: Option<Vec<u8>>,
 }
 
+/// Maximum number of source symbols of a source block (K_max, RFC 5053)
+const MAX_SOURCE_SYMBOLS_PER_BLOCK: usize = 8192;
+
 impl RaptorDecoder {
-    pub fn new(nb_source_symbols: usize, source_block_size: usize) -> RaptorDecoder {
+    pub fn new(nb_source_symbols: usize, source_block_size: usize) -> Result<RaptorDecoder> {
+        // The number of symbols comes from the network (EXT_FTI or FDT),
+        // the raptor_code crate panics when it is out of range
+        if nb_source_symbols == 0 || nb_source_symbols > MAX_SOURCE_SYMBOLS_PER_BLOCK {
+            return Err(FluteError::new(format!(
+                "Raptor source block of {} symbols is not supported",
+                nb_source_symbols
+            )));
+        }
+
         log::info!(
             "new RaptorDecoder nb_source_symbols={} source_block_size={}",
             nb_source_symbols,
             source_block_size
         );
-        RaptorDecoder {
+        Ok(RaptorDecoder {
             decoder: raptor_code::SourceBlockDecoder::new(nb_source_symbols),
             source_block_size,
             // Size of the largest source symbol of the block
             symbol_size: num_integer::div_ceil(source_block_size, nb_source_symbols.max(1)),
             data: None,
-        }
+        })
     }
 }
 
